@@ -4,7 +4,7 @@ b = json.load(open("/root/.vp/BASELINE.json"))
 out = tempfile.mktemp(suffix=".xml")
 env = dict(os.environ); env.pop("PDB2PQR_VERIF", None); env["PYTHONHASHSEED"]="0"
 extra = sys.argv[1:]
-subprocess.run(["/venv/bin/python","-m","pytest","-q","-p","no:cacheprovider","--timeout=900","--continue-on-collection-errors",f"--junitxml={out}",*extra],cwd="/repo",env=env,stdout=open("/tmp/baseline.log","w"),stderr=subprocess.STDOUT)
+subprocess.run(["/venv/bin/python","-m","pytest","-q","-p","no:cacheprovider","--timeout=900","--continue-on-collection-errors",f"--junitxml={out}",*extra],cwd=os.environ.get("VERIF_REPO","/repo"),env=env,stdout=open("/tmp/baseline.log","w"),stderr=subprocess.STDOUT)
 passed=set()
 for tc in ET.parse(out).getroot().iter("testcase"):
     if not any(c.tag in ("failure","error","skipped") for c in tc):
